@@ -410,15 +410,16 @@ class FillRequest(object):
         or, otherwise, the output of *el.request* is stored in a buffer,
         until it is requested.
         """
-        if self._n_count and not self._n_count % self.bufsize:
+        if self._n_count == self.bufsize:
+            # a complete block is in the element and was not requested yet
             if self._buffer_input:
                 self._buffer_in.append(value)
                 return
-            else:
-                # add output to the output buffer
-                self._buffer_out.extend(self.request())
-                # don't reset because need to know that fill was called
-                # self._n_count = 0
+            # store the results of the complete block
+            self._buffer_out.extend(self._el_request())
+            if self._reset:
+                self._el_reset()
+            self._n_count = 0
 
         self._el_fill(value)
         self._n_count += 1
@@ -429,60 +430,42 @@ class FillRequest(object):
         If input or output buffers were filled, all their contents
         are processed and yielded.
         """
+        bufsize = self.bufsize
+
+        if not self._buffer_input:
+            # results of the blocks completed during fill
+            buffer_out = self._buffer_out
+            self._buffer_out = []
+            for val in buffer_out:
+                yield val
+
         # yield what was filled into the element
-        if self._n_count >= self.bufsize:
+        if self._n_count == bufsize:
             for val in self._el_request():
                 yield val
             if self._reset:
                 self._el_reset()
-            # it is important that request is not called
-            # when not enough values were filled after last request
-            self._n_count = self._n_count % self.bufsize
+            self._n_count = 0
 
-        # process buffers.
-        # Buffers are always filled after the element,
-        # therefore the order is correct.
-        if not self._buffer_input:
-            # all results are in _buffer_out
-            for val in self._buffer_out:
-                yield val
-            if self._yield_on_remainder:
-                for val in self._el_request():
-                    yield val
-            # reset was already called when filling _buffer_out
-            return
-        else:
-            # fill the buffer from _buffer_in and yield
-            nfills = 0
-            bufsize = self.bufsize
+        if self._buffer_input:
+            # process complete blocks from the input buffer
             buffer_in = self._buffer_in
-            while True:
-                if nfills == bufsize:
+            while buffer_in:
+                nfills = min(bufsize - self._n_count, len(buffer_in))
+                for val in buffer_in[:nfills]:
+                    self._el_fill(val)
+                del buffer_in[:nfills]
+                self._n_count += nfills
+                if self._n_count == bufsize:
                     for val in self._el_request():
                         yield val
                     if self._reset:
                         self._el_reset()
-                    nfills = 0
-                    del buffer_in[:bufsize]
-                    # should be slower, because a slice below
-                    # copies elements
-                    ## self._buffer_in = self._buffer_in[bufsize:]
-                    continue
+                    self._n_count = 0
 
-                # fill the element with values from buffer
-                try:
-                    val = buffer_in[nfills]
-                except IndexError:
-                    if self._yield_on_remainder:
-                        for val in self._el_request():
-                            yield val
-                    break
-                else:
-                    self._el_fill(val)
-                    nfills += 1
-
-        if self._reset:
-            self._el_reset()
+        if self._yield_on_remainder and self._n_count:
+            for val in self._el_request():
+                yield val
 
     def reset(self):
         """Reset *el* (ignoring the initialization setting)."""
